@@ -81,6 +81,7 @@ func c18Run(f failer, c c18Case) {
 	msg := hist.Bytes(c.MsgSize, c.MsgDist, c.MsgSeed)
 	a := c18Keygen(f, c, c.Password)
 	b := c18Keygen(f, c, c.Other)
+	privBefore, pubBefore := append([]byte(nil), a.priv...), append([]byte(nil), a.pub...)
 	var err error
 	if a.id, err = c18ParseID(c, a.priv, c.Password); err != nil {
 		failf(f, "parsing the freshly generated %s %s private key with its own password %q failed: %v", c.Format, c.Use, c.Password, err)
@@ -254,6 +255,22 @@ func c18Run(f failer, c c18Case) {
 		if err == nil {
 			// a key that parses but cannot be used is still a key that "parsed with a different password"
 			failf(f, "%s %s key generated with password %q parsed without an error with the different password %q (%T)", c.Format, c.Use, c.Password, w, id)
+		}
+	}
+	// the key material is the caller's: parsing it (successfully or not) neither changes it nor
+	// uses it up, so the same bytes parse again with the right password
+	if !bytes.Equal(a.priv, privBefore) || !bytes.Equal(a.pub, pubBefore) {
+		failf(f, "parsing changed the caller's %s %s key bytes", c.Format, c.Use)
+	}
+	if c.Format != "minisign" { // (one more scrypt round at 1 GiB is not worth it there)
+		for i := 0; i < 2; i++ {
+			if _, err := c18ParseID(c, a.priv, c.Password); err != nil {
+				failf(f, "the %s %s private key no longer parses with its own password %q after earlier parse attempts (%d wrong ones): %v", c.Format, c.Use, c.Password, len(c.Wrong), err)
+			}
+			live.S.AddInner(1)
+		}
+		if !bytes.Equal(a.priv, privBefore) {
+			failf(f, "parsing changed the caller's %s %s key bytes", c.Format, c.Use)
 		}
 	}
 	pwClass := "pw:ascii"
